@@ -142,6 +142,41 @@ static void gq_put_canon(mpq_m *r, gz2_t n, gz2_t d) {
   gz_put(&r->f0, (gz_t)n / g); gz_put(&r->f1, (gz_t)d / g);
 }
 void __gmpq_canonicalize(mpq_m *q) { gq_put_canon(q, gz_get(&q->f0), gz_get(&q->f1)); }
+#ifdef GMP_OPAQUE_ARITH
+/* Opaque mode: an mpq operation is RECORDED (kind, exact operand values) and yields an arbitrary canonical rational.
+ * The oracle then checks that the real code called the right operation on the right operands and handled the
+ * result correctly, without re-verifying this model's arithmetic against itself (which no back end here finishes). */
+#ifndef GMP_OPAQUE_BITS
+#define GMP_OPAQUE_BITS 10
+#endif
+static int gq_nops, gq_kind;
+static gz_t gq_an, gq_ad, gq_bn, gq_bd, gq_rn, gq_rd;
+static int gq_coprime_assumed(gz_t a, gz_t b) {
+  if (a < 0) a = -a;
+  if (a == 0) return b == 1;
+  if (a == 1 || b == 1) return 1;
+  gz_t x = nondet_gz(), y = nondet_gz();
+  __CPROVER_assume(x >= -b && x <= b && y >= -a && y <= a);
+  return (gz2_t)x * a + (gz2_t)y * b == 1;
+}
+static void gq_opaque(int kind, mpq_m *r, mpq_m *a, mpq_m *b) {
+  gq_kind = kind; gq_nops++;
+  gq_an = gz_get(&a->f0); gq_ad = gz_get(&a->f1);
+  if (b) { gq_bn = gz_get(&b->f0); gq_bd = gz_get(&b->f1); } else { gq_bn = 0; gq_bd = 1; }
+  gz_t rn = nondet_gz(), rd = nondet_gz();
+  __CPROVER_assume(rd >= 1 && rd < ((gz_t)1 << GMP_OPAQUE_BITS) && rn > -((gz_t)1 << GMP_OPAQUE_BITS) && rn < ((gz_t)1 << GMP_OPAQUE_BITS));
+  __CPROVER_assume(gq_coprime_assumed(rn, rd));
+  gq_rn = rn; gq_rd = rd;
+  gz_put(&r->f0, rn); gz_put(&r->f1, rd);
+}
+void __gmpq_add(mpq_m *r, mpq_m *a, mpq_m *b) { gq_opaque(0, r, a, b); }
+void __gmpq_sub(mpq_m *r, mpq_m *a, mpq_m *b) { gq_opaque(1, r, a, b); }
+void __gmpq_mul(mpq_m *r, mpq_m *a, mpq_m *b) { gq_opaque(2, r, a, b); }
+void __gmpq_div(mpq_m *r, mpq_m *a, mpq_m *b) {
+  __CPROVER_assert(gz_get(&b->f0) != 0, "gmp: mpq_div by zero");
+  gq_opaque(3, r, a, b);
+}
+#else
 void __gmpq_add(mpq_m *r, mpq_m *a, mpq_m *b) {
   gz_t an = gz_get(&a->f0), ad = gz_get(&a->f1), bn = gz_get(&b->f0), bd = gz_get(&b->f1);
   gq_put_canon(r, GZ_MUL(an, bd) + GZ_MUL(bn, ad), GZ_MUL(ad, bd));
@@ -160,6 +195,7 @@ void __gmpq_div(mpq_m *r, mpq_m *a, mpq_m *b) {
   __CPROVER_assume(bn != 0);
   gq_put_canon(r, GZ_MUL(an, bd), GZ_MUL(ad, bn));
 }
+#endif
 void __gmpq_inv(mpq_m *r, mpq_m *a) {
   gz_t an = gz_get(&a->f0), ad = gz_get(&a->f1);
   __CPROVER_assert(an != 0, "gmp: mpq_inv of zero");
